@@ -281,9 +281,16 @@ def write_shards(hs, tag, nshards):
     return files
 
 
-def exec_trace(binary, path, env=None, timeout=400):
+HARNESS_TIMEOUT = 60      # seconds of wall clock per history (harness --isolate): a hang costs one history
+
+
+def exec_trace(binary, path, env=None, timeout=1500):
+    # the implementation runs every history in a forked child (harness --isolate): an abort, a stack
+    # overflow, an allocation failure or an endless loop / deadlock inside the crate costs that
+    # history only and shows up in its trace as `R <n> abort` / `R <n> timeout`
+    args = ['--isolate', '--timeout=%d' % HARNESS_TIMEOUT, '--mem-mb=8192'] if binary == HARNESS else []
     try:
-        r = subprocess.run([binary, path], stdout=subprocess.PIPE, stderr=subprocess.PIPE, text=True, timeout=timeout,
+        r = subprocess.run([binary] + args + [path], stdout=subprocess.PIPE, stderr=subprocess.PIPE, text=True, timeout=timeout,
                            env=dict(os.environ, **(env or {})))
         return r.returncode, r.stdout, r.stderr
     except subprocess.TimeoutExpired as e:
@@ -334,9 +341,12 @@ def pyref_findings(prop, text, trace):
     for m in mm:
         ln = m.predicted or m.actual or ''
         opname = m.op_text.split()[0] if m.op_text else ''
-        if (m.actual or '').endswith(' panic'):
-            if prop in ('C15',) or filt('R', opname):
-                out.append(oracles.Finding(m.op, 'panic in `%s`' % m.op_text))
+        act = (m.actual or '')
+        if act.endswith((' panic', ' abort', ' timeout')):
+            what = act.rsplit(' ', 1)[1]
+            if prop in ('C15',) or filt('R', opname) or (prop == 'C16' and what == 'timeout'):
+                out.append(oracles.Finding(m.op, {'panic': 'panic in `%s`', 'abort': 'the process died (abort / stack overflow / out of memory) in `%s`',
+                                                  'timeout': '`%%s` did not terminate within %d s' % HARNESS_TIMEOUT}[what] % m.op_text))
             continue
         if filt(classify(ln), opname):
             out.append(oracles.Finding(m.op, 'after `%s`: expected `%s`, got `%s`' % (m.op_text, (m.predicted or '')[:200], (m.actual or '')[:200])))
@@ -468,6 +478,9 @@ def write_replay(prop, kind, text, info):
 
 
 def check(prop, tier, seed):
+    global HARNESS_TIMEOUT
+    if prop == 'C16':
+        HARNESS_TIMEOUT = 20
     t0 = time.time()
     spec = PROPS[prop]
     violations = []           # (replay path, suffix)
@@ -490,7 +503,10 @@ def check(prop, tier, seed):
     if okh and okm:
         env = None
         impl, model, problems = run_all(hs, prop)
-        if spec.get('repeat'):
+        hung = sum(1 for t in impl if t and any(l.endswith(' timeout') for l in t['lines'] if l.startswith('R ')))
+        if spec.get('repeat') and hung:
+            log('%d histories did not terminate; skipping the repetitions' % hung)
+        if spec.get('repeat') and not hung:
             # concurrency: repeat the par histories under several rayon pool sizes
             reps = 3 if tier == 'quick' else 40
             for r in range(reps):
